@@ -92,6 +92,9 @@ func NewFilterFS(fs FS, opt *FilterOpt) (FS, error) {
 		if targets != nil {
 			includePatterns = append(includePatterns, targets...)
 			includePatterns = dedupePaths(includePatterns)
+		} else {
+			// a followed path reaches the root: everything is needed, no include filter
+			includePatterns = nil
 		}
 	}
 
